@@ -39,48 +39,48 @@ var cellPool = []string{"a", "b", "hello world", "x,y", "q\"uote", "", "æ—¥æœ¬èª
 
 func genCase(t *rapid.T) crashCase {
 	c := crashCase{}
-	nt := rapid.IntRange(1, 3).Draw(t, "ntables")
+	nt := fw.Range(t, "ntables", 1, 3)
 	for i := 0; i < nt; i++ {
-		ext := fw.Pick(t, "ext", exts)
+		ext := fw.PickU(t, "ext", exts)
 		ts := tableSpec{Name: fmt.Sprintf("t%d%s", i+1, ext)}
-		ts.Big = fw.Chance(t, "big", 15)
-		nr := rapid.IntRange(0, 6).Draw(t, "nrows")
+		ts.Big = fw.Pct(t, "big", 15)
+		nr := fw.Range(t, "nrows", 0, 6)
 		if ts.Big {
-			nr = rapid.IntRange(600, 900).Draw(t, "bigrows")
+			nr = fw.Range(t, "bigrows", 600, 900)
 		}
 		for r := 0; r < nr; r++ {
-			cell := fw.Pick(t, "cell", cellPool)
+			cell := fw.PickU(t, "cell", cellPool)
 			if ext == ".ltsv" || ext == ".tsv" {
 				cell = strings.ReplaceAll(cell, "\t", " ")
 			}
 			if ts.Big {
 				cell = cell + strings.Repeat("p", 90)
 			}
-			ts.Rows = append(ts.Rows, []string{fmt.Sprint(r + 1), fmt.Sprint(rapid.IntRange(0, 9).Draw(t, "v")), cell})
+			ts.Rows = append(ts.Rows, []string{fmt.Sprint(r + 1), fmt.Sprint(fw.Range(t, "v", 0, 9)), cell})
 		}
 		c.Tables = append(c.Tables, ts)
 	}
 	touched := map[int]bool{}
-	ns := rapid.IntRange(1, 5).Draw(t, "nstmts")
+	ns := fw.Range(t, "nstmts", 1, 5)
 	created := 0
 	for i := 0; i < ns; i++ {
-		k := rapid.IntRange(0, 5).Draw(t, "stmtKind")
-		ti := rapid.IntRange(0, nt-1).Draw(t, "target")
+		k := fw.Range(t, "stmtKind", 0, 5)
+		ti := fw.Range(t, "target", 0, nt-1)
 		tn := "`" + c.Tables[ti].Name + "`"
 		switch k {
 		case 0, 1:
-			c.Stmts = append(c.Stmts, fmt.Sprintf("UPDATE %s SET v = v + %d WHERE id %% 2 = %d", tn, rapid.IntRange(1, 3).Draw(t, "inc"), rapid.IntRange(0, 1).Draw(t, "par")))
+			c.Stmts = append(c.Stmts, fmt.Sprintf("UPDATE %s SET v = v + %d WHERE id %% 2 = %d", tn, fw.Range(t, "inc", 1, 3), fw.Range(t, "par", 0, 1)))
 			touched[ti] = true
 		case 2:
-			c.Stmts = append(c.Stmts, fmt.Sprintf("INSERT INTO %s VALUES (%d, %d, 'new%d')", tn, 1000+i, rapid.IntRange(0, 9).Draw(t, "nv"), i))
+			c.Stmts = append(c.Stmts, fmt.Sprintf("INSERT INTO %s VALUES (%d, %d, 'new%d')", tn, 1000+i, fw.Range(t, "nv", 0, 9), i))
 			touched[ti] = true
 		case 3:
-			c.Stmts = append(c.Stmts, fmt.Sprintf("DELETE FROM %s WHERE id < %d", tn, rapid.IntRange(1, 4).Draw(t, "delk")))
+			c.Stmts = append(c.Stmts, fmt.Sprintf("DELETE FROM %s WHERE id < %d", tn, fw.Range(t, "delk", 1, 4)))
 			touched[ti] = true
 		case 4:
 			if created < 2 {
 				created++
-				ext := fw.Pick(t, "cext", []string{".csv", ".tsv", ".json", ""})
+				ext := fw.PickU(t, "cext", []string{".csv", ".tsv", ".json", ""})
 				name := fmt.Sprintf("n%d%s", created, ext)
 				c.Stmts = append(c.Stmts, fmt.Sprintf("CREATE TABLE `%s` (a, b)", name))
 				c.Stmts = append(c.Stmts, fmt.Sprintf("INSERT INTO `%s` VALUES (1, 'x'), (2, 'y')", name))
@@ -89,7 +89,7 @@ func genCase(t *rapid.T) crashCase {
 				touched[ti] = true
 			}
 		default:
-			c.Stmts = append(c.Stmts, fmt.Sprintf("UPDATE %s SET s = s || '!' WHERE id = %d", tn, rapid.IntRange(1, 3).Draw(t, "uid")))
+			c.Stmts = append(c.Stmts, fmt.Sprintf("UPDATE %s SET s = s || '!' WHERE id = %d", tn, fw.Range(t, "uid", 1, 3)))
 			touched[ti] = true
 		}
 	}
@@ -204,6 +204,13 @@ func checkCase(c crashCase) (fw.Outcome, *fw.Violation) {
 	_ = os.Remove(logp)
 	if r.Code != 0 {
 		_ = os.RemoveAll(dir)
+		if strings.Contains(r.Stderr, "data empty") {
+			// an LTSV table whose last record was deleted cannot be written (the format has no header
+			// without records): csvq refuses the commit, so there is no commit to crash
+			o.Discard = true
+			o.Classes = append(o.Classes, "commit_refused_data_empty")
+			return o, nil
+		}
 		return o, fw.Harness("dry run failed (exit %d): %s\nprogram:\n%s", r.Code, r.Stderr, prog)
 	}
 	newSnap := run.Snapshot(dir)
